@@ -282,6 +282,55 @@ fn mean_case(rng: &mut Rng, idx: u64, out: &mut Out) {
         Ok(t) => {
             check_shape(&t, &dims, "mean", out);
             let got = flat(&t);
+            // up to four others: the result must be bit-equal to SOME single-precision evaluation
+            // of the mean (terms added in any order, the receiver first / last / anywhere; then
+            // divided by n, multiplied by 1/n, or every term divided first)
+            if k <= 4 && fam != 4 {
+                for i in 0..n {
+                    let terms: Vec<f32> = std::iter::once(a[i]).chain(others.iter().map(|o| o[i])).collect();
+                    if terms.iter().any(|v| !v.is_finite()) {
+                        continue;
+                    }
+                    let nn = (k + 1) as f32;
+                    let mut ok = false;
+                    let mut perm: Vec<usize> = (0..terms.len()).collect();
+                    let mut c = vec![0usize; terms.len()];
+                    let mut check = |p: &Vec<usize>| -> bool {
+                        let fold: f32 = p.iter().skip(1).fold(terms[p[0]], |acc, j| acc + terms[*j]);
+                        let rest: f32 = p.iter().skip(2).fold(terms[p[1 % p.len()]], |acc, j| acc + terms[*j]);
+                        let paired = if p.len() >= 2 { terms[p[0]] + rest } else { terms[p[0]] };
+                        let divided: f32 = p.iter().skip(1).fold(terms[p[0]] / nn, |acc, j| acc + terms[*j] / nn);
+                        [fold / nn, fold * (1.0 / nn), paired / nn, paired * (1.0 / nn), divided].iter().any(|w| w.to_bits() == got[i].to_bits() || (*w == 0.0 && got[i] == 0.0))
+                    };
+                    // Heap's algorithm over the term orders
+                    if check(&perm) {
+                        ok = true;
+                    }
+                    let mut q = 0;
+                    while !ok && q < perm.len() {
+                        if c[q] < q {
+                            if q % 2 == 0 {
+                                perm.swap(0, q);
+                            } else {
+                                perm.swap(c[q], q);
+                            }
+                            if check(&perm) {
+                                ok = true;
+                            }
+                            c[q] += 1;
+                            q = 0;
+                        } else {
+                            c[q] = 0;
+                            q += 1;
+                        }
+                    }
+                    out.count("mean_elements_matched_against_single_precision_evaluations", 1);
+                    if !ok {
+                        out.viol("mean:not-single-precision", format!("mean over {} tensors of rank {}, element {}: {:e} is not the result of any single-precision evaluation of the mean of {:?}", k + 1, rank, i, got[i], terms), J::Null);
+                        break;
+                    }
+                }
+            }
             for i in 0..n {
                 let sum: f64 = a[i] as f64 + others.iter().map(|o| o[i] as f64).sum::<f64>();
                 let abs: f64 = (a[i] as f64).abs() + others.iter().map(|o| (o[i] as f64).abs()).sum::<f64>();
@@ -523,7 +572,7 @@ impl Monitor for C15 {
         vec![("binary", 8000 * k), ("mismatch", 4000 * k), ("scalar", 3000 * k), ("mean", 3000 * k), ("nested", 1500 * k), ("linalg", 2000 * k)]
     }
     fn rule(&self) -> &'static str {
-        "binary: (op in add/sub/mul/hadamard) x (rank 1..4) x (content family: random, special values incl. +-0, denormals, +-MAX, +-inf, NaN, overflowing products, bit-pattern denormals, log-scaled, a dyadic palette {-2,-1,-0.5,0,0.5,1,2}, sorted ramps) on random shapes with extents 1..5: result bit-equal to the IEEE f32 operation performed by the harness (any association for the scaled Hadamard product), bit-identical to the same operation on the numbers laid out as a vector (rank-generic), shape unchanged. mismatch: same ops + mean on operand pairs of different extent or rank (incl. equal element count in another rank): must panic and leave the left operand untouched. scalar: division by scalars incl. 0, tiny, huge + clamp. mean: k = 1..6 others. nested: Nested / NestedOptional add (absent members at equal and at different positions in the two operands), Nested scalar division, nested length mismatch and member-shape mismatch. linalg: outer product (bit-exact), matrix-vector product (f64 with dot-product bound), transpose, hadamard3d. Distinct = distinct (op, rank, shape, family) descriptors."
+        "binary: (op in add/sub/mul/hadamard) x (rank 1..4) x (content family: random, special values incl. +-0, denormals, +-MAX, +-inf, NaN, overflowing products, bit-pattern denormals, log-scaled, a dyadic palette {-2,-1,-0.5,0,0.5,1,2}, sorted ramps) on random shapes with extents 1..5: result bit-equal to the IEEE f32 operation performed by the harness (any association for the scaled Hadamard product), bit-identical to the same operation on the numbers laid out as a vector (rank-generic), shape unchanged. mismatch: same ops + mean on operand pairs of different extent or rank (incl. equal element count in another rank): must panic and leave the left operand untouched. scalar: division by scalars incl. 0, tiny, huge + clamp. mean: k = 1..6 others; for k <= 4 every element must be bit-equal to some single-precision evaluation of the mean (any order of the additions, division or reciprocal multiplication, or term-wise division), beyond that within the rounding bound. nested: Nested / NestedOptional add (absent members at equal and at different positions in the two operands), Nested scalar division, nested length mismatch and member-shape mismatch. linalg: outer product (bit-exact), matrix-vector product (f64 with dot-product bound), transpose, hadamard3d. Distinct = distinct (op, rank, shape, family) descriptors."
     }
     fn assumptions(&self) -> Vec<&'static str> {
         vec!["hadamard3d is documented as not validating lengths, so it is only driven with equal shapes", "NaN results (inf-inf, 0*inf) are matched as NaN"]
